@@ -30,6 +30,7 @@ const MODES: [&str; 4] = ["13-byte header, marker", "13-byte header, size", "5-b
 pub fn gen_valid(rng: &mut Rng, tier: Tier) -> Option<ValidStream> {
     let mode = rng.usize_below(4);
     let from_liblzma = rng.chance(1, 4);
+    let mut big_dict = false;
     let (props, payload, full, table, has_marker): (Props, Vec<u8>, Vec<u8>, Vec<SymRecord>, bool) = if from_liblzma {
         let p = crate::gen::l2gen::random_props_l2(rng);
         let n = rng.range(1, tier.pick(20_000, 60_000)) as usize;
@@ -44,6 +45,17 @@ pub fn gen_valid(rng: &mut Rng, tier: Tier) -> Option<ValidStream> {
             return None;
         }
         (p, payload, plain, r.table, true)
+    } else if rng.chance(1, 10) {
+        // near-maximal symbols: the decoder must hold back up to 19 bytes
+        let props = Props::new(0, 0, 0);
+        let mut prog = crate::gen::prog::floor_program(rng, 31);
+        let marker = mode == 0;
+        if marker {
+            prog.push(Sym::Eos);
+        }
+        let (payload, table, hist) = crate::refmodel::lzma::encode_program(&prog, props).ok()?;
+        big_dict = true;
+        (props, payload, hist, table, marker)
     } else {
         let props = Props::new(rng.below(9) as u32, rng.below(5) as u32, rng.below(5) as u32);
         let mut it = Interp::new();
@@ -62,11 +74,12 @@ pub fn gen_valid(rng: &mut Rng, tier: Tier) -> Option<ValidStream> {
     if mode == 0 && !has_marker {
         return None;
     }
+    let dict: u32 = if big_dict { 1 << 20 } else { 4096 };
     let (hdr, us) = match mode {
-        0 => (sut::lzma_header(props.byte(), 4096, Some(None)), UnpackedSize::ReadFromHeader),
-        1 => (sut::lzma_header(props.byte(), 4096, Some(Some(len))), UnpackedSize::ReadFromHeader),
-        2 => (sut::lzma_header(props.byte(), 4096, None), UnpackedSize::UseProvided(Some(len))),
-        _ => (sut::lzma_header(props.byte(), 4096, Some(Some(rng.next()))), UnpackedSize::ReadHeaderButUseProvided(Some(len))),
+        0 => (sut::lzma_header(props.byte(), dict, Some(None)), UnpackedSize::ReadFromHeader),
+        1 => (sut::lzma_header(props.byte(), dict, Some(Some(len))), UnpackedSize::ReadFromHeader),
+        2 => (sut::lzma_header(props.byte(), dict, None), UnpackedSize::UseProvided(Some(len))),
+        _ => (sut::lzma_header(props.byte(), dict, Some(Some(rng.next()))), UnpackedSize::ReadHeaderButUseProvided(Some(len))),
     };
     let h = hdr.len();
     let mut file = hdr;
